@@ -1,5 +1,5 @@
 """C11 — handler errors arrive intact; registered error types round-trip by code. Theorems: Props_C11.v (Errors.v).
-Correspondence: family `errors` — 13 error kinds x 9 registration-table relations x messages x {error, (value,error)} x
+Correspondence: family `errors` — 14 error kinds x 9 registration-table relations x messages x {error, (value,error)} x
 {http, ws}; the caller's observation (nil?, dynamic type, Error(), fields, value slot) against
 Errors.receive (Errors.serve ...) evaluated in Coq. The harness also judges each case with the property stated directly."""
 import collections
@@ -10,7 +10,7 @@ PROPS = "Props_C11"
 
 TYPES = {"*jsonrpc.JSONRPCError": (0, True), "main.plainVal": (1, False), "*main.plainPtr": (2, True), "*main.marshErr": (3, True),
          "*main.codecErr": (4, True), "*main.bothErr": (5, True), "*main.failUnmarshal": (6, True), "*main.failFrom": (7, True),
-         "main.valReg": (10, False), "*main.valReg": (10, True), "": (0, True)}
+         "main.valReg": (10, False), "*main.valReg": (10, True), "*main.dataErr": (13, True), "": (0, True)}
 
 
 def tab(t):
@@ -75,7 +75,7 @@ def run(res):
     hist = collections.Counter((c["type"] or "nil") for c in cases)
     res.add_cov(evaluations=len(cases),
                 distinct_nontrivial=len({(c["kind"], c["msg"], c["shape"], c["transport"], json.dumps(c["sreg"]), json.dumps(c["creg"])) for c in cases if c["kind"] != 0}),
-                rule="13 error kinds (nil, plain value/pointer, wrapped registered errors, marshalable, codec, codec+marshalable, failing UnmarshalJSON, failing FromJSONRPCError, "
+                rule="14 error kinds (nil, plain value/pointer, wrapped registered errors, marshalable, codec, codec+marshalable, failing UnmarshalJSON, failing FromJSONRPCError, "
                      "errors.New, pointer to a value-registered type, value-registered type) x 9 table relations (same, server-only, client-only, none, "
                      "disjoint codes, swapped types, codec codes only, nil client table, nil server table) x 6 messages (empty, escapes, HTML, "
                      "multi-byte UTF-8, control characters, 1500 bytes) x 2 shapes x 2 transports; quick thins messages per kind; non-trivial = a non-nil error",
